@@ -24,6 +24,7 @@ K == [ SentOk1   |-> L("sent1", F, F, "none"),
        SentBad   |-> L("sentbad", F, F, "none"),
        HdrRun    |-> L("run", F, F, "none"),
        HdrOther  |-> L("other", F, F, "none"),
+       HdrOtherP |-> L("other", T, F, "none"),     \* e.g. "goroutine 3 [GC worker (idle)]:"
        Blank     |-> L("blank", F, F, "none"),
        Created   |-> L("created", F, F, "none"),
        Elided    |-> L("elided", F, F, "none"),
@@ -106,6 +107,13 @@ TrapRule == ps.wf => \A k \in 1..Len(ps.pcs) :
 \* initial reports for the cfg files
 PrefixEmpty == {<<>>}
 PrefixHdr == {<<"SentOk1", "HdrRun">>}
+\* a first running goroutine with odd line pairing (a symbol line without its
+\* location line, a location line in symbol position, an extra "(" line), ended
+\* by a blank or "created by" line: what follows belongs to other goroutines
+PrefixOdd == {p \o <<t>> : p \in {<<"SentOk1", "HdrRun", "SymPlain", "LocPc", "SymPlain">>,
+                                  <<"SentOk1", "HdrRun", "SymPlain", "LocPc", "LocParenPc">>,
+                                  <<"SentOk1", "HdrRun", "SymPlain", "LocPc", "SymParen1">>},
+                         t \in {"Blank", "Created"}}
 PrefixTrap == {<<"SentOk2", "NoParen", "HdrRun", "SymSig", "LocPc">>}
 
 NpcClass(n) == IF n <= Cap + 1 THEN n ELSE Cap + 2
